@@ -69,13 +69,26 @@ def run(ctx):
         "object is used more than once - 3 (quick) / 5 (thorough) Connects on the same upstream object, two or three local "
         "connections through the same client process (so that the carrier is reopened on the same upstream), further "
         "connections through the same listener / channel, further clients probing the same server; every use is judged by "
-        "the same table (signature prefix reuse-). A case is distinct by (monitor, input form [+context], position, input).",
+        "the same table (signature prefix reuse-). Two-address position (listener spec name~listen~forward, "
+        "c18_forward_test.go): every forward part - plain tcp/unix, schemes that ask for encryption (+tls, +ssl, https, ...), "
+        "unknown schemes and qualifiers, case variants, missing host/port, damaged URLs, 120 (quick) / 3000 (thorough) PRNG "
+        "mutants of the forward scheme - behind good tcp/unix/stdin listen parts, and every listen part of the lists above "
+        "(good, unknown, +tls misuse, missing host/port, damaged URLs) once more in front of a good, a +tls, a unix and a "
+        "damaged forward part; all of them through the parse monitor (forms, contexts), the good-listen ones through Start "
+        "and a selection through the real binary, with a plain recorder where the forward part points (TCP port or unix "
+        "socket): a live plain tcp:// / unix:///abs forward must be tried first, and whatever arrives at the place a forward "
+        "part names must be the transport its scheme says (never plaintext where the scheme asks for encryption, nothing at "
+        "all for an unknown scheme); going to the upstreams instead is always accepted (signatures listener:<class>:forward-*; "
+        "a crash on a bad listen part followed by a forward part: listener:<form>:<listen class>+forward:panic@site). "
+        "A case is distinct by (monitor, input form [+context], position, input).",
         ["the README line references are those of the README at the time the table was transcribed",
          "a scheme that the code accepts but the README does not list is only checked for its natural reading when accepted",
          "late rejection (address accepted by the parser, refused with an error at Startup/Connect) counts as rejected",
          "channel/listener/upstream near-misses that fail only when a connection is attempted are not judged as accepted",
          "context: the valid section placed next to the item is the first candidate that the parser accepts when it stands alone "
          "(client: listen+upstream, listen, insecure only; server: servers+channels, channels)",
+         "forward part: the README names no schemes for it; tcp and unix are taken as documented (README L57, L384-388), "
+         "unixpacket/tcp4/tcp6 as code-only; a forward part on a datagram family (udp, unixgram) is parsed but never started",
          "reuse: a stdio upstream / stdio server has one peer per process and is used once; the black-box client is re-used for "
          "stream carriers (socket, websocket) only, where one accepted connection at the recorder is one attempt of the client"],
         extra_cov={"exhaustive": False}, post=post)
